@@ -3,7 +3,7 @@
 //!   ops : a8=v a16=v a32=v a64=v (append<T>)   as=hex (append_slice)
 //!         w8=off.v w16=off.v w32=off.v w64=off.v  ws=off.hex (write at offset)
 //!         kb=v kw=v kd=v kq=v kv=hex (bytes pushed through the AmlSink interface)   ck (update_checksum)
-//!   obs : slice hex after `new` and after every op; `panic:<slice hex after the refused op>`; `panic` if `new` panics
+//!   obs : slice hex after `new` and after every op; a final `ser=<to_aml_bytes hex>,<len()>`; `panic:<slice hex after the refused op>`; `panic` if `new` panics
 use crate::rng::Rng;
 use crate::util::*;
 use acpi_tables::sdt::Sdt;
@@ -58,6 +58,10 @@ pub fn run_sdt(toks: &[&str]) -> String {
         // len()/is_empty() agree with the slice
         assert!(s.len() == s.as_slice().len() && !s.is_empty());
     }
+    // the table as an `Aml` object: serialisation through `to_aml_bytes`, and `len()` (C13 e)
+    let mut ser = Vec::new();
+    acpi_tables::Aml::to_aml_bytes(&s, &mut ser);
+    out.push(format!("ser={},{}", hex(&ser), s.len()));
     out.join(" ")
 }
 
